@@ -8,7 +8,7 @@
 (*   ImportExport(s) = Import(Export(s), s)                                  *)
 (* Import asserts, as the code does, that each escrow account's balance      *)
 (* equals the module's holdings.                                             *)
-EXTENDS Props
+EXTENDS Goals
 
 GenCap == 20000      \* newest records exported per registration (MaxBlockSubmissionsKeepInState / MaxHashSubmissionsToExport)
 
